@@ -116,6 +116,7 @@ func ChanSend[T any](ch chan<- T, v T) {
 	s.Release(e)
 	if len(e.buf) < e.cap {
 		e.buf = append(e.buf, v)
+		s.Point(KSync, "chan.sent") // the receiver may run before the sender's next statement
 		return
 	}
 	it := &sendItem{val: v}
@@ -192,6 +193,7 @@ func ChanClose[T any](ch chan<- T) {
 	}
 	s.Release(e)
 	e.closed = true
+	s.Point(KSync, "chan.closed") // whoever waits for the close may run before the closer's next statement
 }
 
 // GoFunc is the rewritten `go` statement.
